@@ -642,8 +642,17 @@ class Emitter {
 				}
 				if (C) {
 					if (auto *LB = dyn_cast<BinaryOperator>(T)) {
-						if (LB->isLogicalOp())
-							C = LB->getLHS();
+						if (LB->isLogicalOp()) {
+							// this block decides on the last operand of
+							// the left-hand side chain: (a || b) || c
+							const Expr *L = strip(LB->getLHS());
+							while (auto *LL = dyn_cast<BinaryOperator>(L)) {
+								if (!LL->isLogicalOp())
+									break;
+								L = strip(LL->getRHS());
+							}
+							C = L;
+						}
 					}
 					curRoot   = nullptr;
 					t["cond"] = ser(C, 0, "");
